@@ -615,7 +615,12 @@ def run(ctx):
             if m is None:
                 continue
             mc, ms = split_canon(m)
+            # only the receiver of an edited direction is comparable (the other side's view depends on
+            # whether the receiver fails at once or waits for bytes that never come)
+            recv_sides = {"s" if d_ == "c2s" else "c" for (d_, _i) in sc["script"]}
             for name, mm in (("c", mc), ("s", ms)):
+                if name not in recv_sides:
+                    continue
                 d = obs[name]
                 real_rx = [x for pr in d["rx"] for x in pr]
                 if mm["status"] in (3,) and d["status"] != 3:
